@@ -113,6 +113,50 @@ def sensitivity(out, only=None):
     return 0 if missed == 0 else 2
 
 
+BENIGN_RUNS = {"C04": 600, "C08": 160, "C13": 600, "C14": 48, "C15": 300, "C18": 600}
+
+
+def benign(out, only=None):
+    """Every behaviour-preserving refactoring in /verif/benign must leave every check green."""
+    with open(os.path.join(VERIF, "benign", "INDEX.json")) as f:
+        idx = json.load(f)
+    repo = runners.REPO
+    alarms = 0
+    for m in idx:
+        if only and m["id"] != only:
+            continue
+        wt = os.path.join("/dev/shm", f"cbisim-benign-{os.getpid()}")
+        shutil.rmtree(wt, ignore_errors=True)
+        try:
+            subprocess.run(["git", "-C", repo, "worktree", "add", "--detach", "-q", wt, "HEAD"], check=True,
+                           capture_output=True)
+            p = subprocess.run(["git", "-C", wt, "apply", os.path.join(VERIF, m["patch"])], capture_output=True, text=True)
+            if p.returncode != 0:
+                out(f"[selftest benign] {m['id']}: patch does not apply: {p.stderr[:200]}")
+                alarms += 1
+                continue
+            res = {}
+            t0 = time.monotonic()
+            for pid, n in BENIGN_RUNS.items():
+                env = dict(os.environ)
+                env.pop("CBISIM_REEXEC", None)
+                env["CBISIM_REPO"] = wt
+                env["CBISIM_RUNS"] = str(n)
+                q = subprocess.run([os.path.join(VERIF, "check"), pid, "quick"], env=env, capture_output=True,
+                                   text=True, timeout=3600)
+                res[pid] = q.returncode
+                if q.returncode != 0:
+                    lines = [l for l in q.stdout.split("\n") if l.startswith(("VIOLATION", "HARNESS", "  class"))]
+                    out(f"   {pid}: " + " | ".join(lines)[:600])
+            bad = {k: v for k, v in res.items() if v != 0}
+            alarms += len(bad)
+            out(f"[selftest benign] {m['id']}: {'clean' if not bad else 'ALARM ' + str(bad)} {time.monotonic() - t0:.0f}s")
+        finally:
+            subprocess.run(["git", "-C", repo, "worktree", "remove", "--force", wt], capture_output=True)
+            shutil.rmtree(wt, ignore_errors=True)
+    return 0 if alarms == 0 else 2
+
+
 def main(args, out):
     if not args:
         out(__doc__)
@@ -124,6 +168,8 @@ def main(args, out):
         return determinism(n, out, args[2:] or None)
     if args[0] == "sensitivity":
         return sensitivity(out, args[1] if len(args) > 1 else None)
+    if args[0] == "benign":
+        return benign(out, args[1] if len(args) > 1 else None)
     if args[0] == "model":
         from . import gcccheck
 
